@@ -563,7 +563,7 @@ func (st *xmlGenState) textLeaf(t *rapid.T, depth int) XNode {
 	el := XNode{K: "elem", Name: pick(t, "xml.textleaf", st.v.textLeaves), Attrs: st.decoyAttrs(t)}
 	ent := rapid.IntRange(0, 2).Draw(t, "xml.ent")
 	ws := pick(t, "xml.ws", []string{"\n    ", " ", "\n", "\t", "\r\n  "})
-	switch where := pick(t, "xml.where", []string{"text", "text", "text", "text-pad", "text-lead", "text-trail", "prose-mid", "prose-first", "prose-last", "cdata", "cdata", "cdata-trail", "mixed"}); where {
+	switch where := pick(t, "xml.where", []string{"text", "text", "text", "text-pad", "text-lead", "text-trail", "prose-mid", "prose-first", "prose-last", "cdata", "cdata", "cdata-trail", "mixed", "mixed-before"}); where {
 	case "text":
 		el.Kids = []XNode{{K: "text", S: st.plant(t, depth, where, false), Ent: ent}}
 	case "text-pad":
@@ -585,6 +585,20 @@ func (st *xmlGenState) textLeaf(t *rapid.T, depth int) XNode {
 	case "mixed":
 		// mixed content: text, an inline element, text ending in the URL
 		el.Kids = []XNode{{K: "text", S: "See ", Ent: ent}, {K: "elem", Name: "b", Kids: []XNode{{K: "text", S: "this"}}}, {K: "text", S: " page: " + st.plant(t, depth, "prose-last", true), Ent: ent}}
+	case "mixed-before":
+		// mixed content, compact: the text run ends in the URL and a child element follows without white space - the
+		// child's start tag is what ends the URL. The child carries a word or a URL of its own.
+		child := XNode{K: "elem", Name: pick(t, "xml.inline", []string{"sig", "b", "x:note"})}
+		first := st.plant(t, depth, "prose-last", true)
+		if rapid.Bool().Draw(t, "xml.childurl") {
+			child.Kids = []XNode{{K: "text", S: st.plant(t, depth, "text", false), Ent: ent}}
+		} else {
+			child.Kids = []XNode{{K: "text", S: pick(t, "xml.inlinetext", []string{"signature", "mirror", "2"})}}
+		}
+		el.Kids = []XNode{{K: "text", S: "Source: " + first, Ent: ent}, child}
+		if rapid.Bool().Draw(t, "xml.tail") {
+			el.Kids = append(el.Kids, XNode{K: "text", S: " (checked)"})
+		}
 	}
 	return el
 }
